@@ -9,6 +9,7 @@ type Rule func(ctx *core.Ctx, r *core.Report)
 // Registry maps property ids to their rule sets.
 var Registry = map[string]Rule{
 	"C03": C03,
+	"C05": C05,
 	"C06": C06,
 	"C09": C09,
 	"C10": C10,
